@@ -79,6 +79,16 @@ func (c *FnCtx) callEffects(cc *ssa.CallCommon, res ssa.Value, pos token.Pos, de
 	if callee == nil && len(fv.Cands) > 0 {
 		return c.dispatchCall(fv.Cands, args, cc, resType, pos)
 	}
+	if callee == nil && !(c.Spec != nil && c.Spec.Pure) {
+		if sig, ok := types.Unalias(cc.Value.Type()).Underlying().(*types.Signature); ok {
+			if cands := c.dynamicDispatch(fv, sig); len(cands) > 0 {
+				if fv.Place == nil && fv.T != "" {
+					c.oblige("nilfunc", fmt.Sprintf("(not (= %s 0))", fv.T), cc.Value.Name()+"()", pos)
+				}
+				return c.dispatchCall(cands, args, cc, resType, pos)
+			}
+		}
+	}
 	if callee == nil {
 		// dynamic call through an unknown function value
 		if fv.Place == nil && fv.T != "" {
@@ -856,4 +866,63 @@ func isAnyTreeHeap(n string) bool {
 		}
 	}
 	return false
+}
+
+// preRegisterExterns: signatures of the uninterpreted symbols of scalar-signature externals, so that
+// contracts can mention them (e.g. ext_path_filepath_IsAbs_0) independently of translation order.
+func (e *Engine) preRegisterExterns() {
+	for fn := range e.allFuncs {
+		if !e.inRepo(fn) {
+			continue
+		}
+		for _, b := range fn.Blocks {
+			for _, ins := range b.Instrs {
+				cl, ok := ins.(*ssa.Call)
+				if !ok {
+					continue
+				}
+				callee := cl.Call.StaticCallee()
+				if callee == nil || e.inRepo(callee) {
+					continue
+				}
+				pp := pkgPathOf(callee)
+				if !purePkgs[pp] || pp == "os" || pp == "io" || pp == "runtime" {
+					continue
+				}
+				if _, modelled := externModels[externName(callee)]; modelled {
+					continue
+				}
+				sig := callee.Signature
+				var asorts []Sort
+				ok2 := true
+				for i, p := range callee.Params {
+					s := e.Model.SortOf(p.Type())
+					if !isScalarSort(s, p.Type()) {
+						if i == 0 && sig.Recv() != nil && pp == "regexp" {
+							asorts = append(asorts, SInt)
+							continue
+						}
+						ok2 = false
+						break
+					}
+					asorts = append(asorts, s)
+				}
+				if !ok2 || sig.Results().Len() == 0 {
+					continue
+				}
+				base := "ext_" + mangle(externName(callee))
+				for i := 0; i < sig.Results().Len(); i++ {
+					rt := sig.Results().At(i).Type()
+					rs := e.Model.SortOf(rt)
+					fnn := fmt.Sprintf("%s_%d", base, i)
+					switch {
+					case isErrorType(rt):
+						e.extSigs[fnn] = builtinSig{asorts, SBool}
+					case isScalarSort(rs, rt):
+						e.extSigs[fnn] = builtinSig{asorts, rs}
+					}
+				}
+			}
+		}
+	}
 }
